@@ -190,9 +190,16 @@ fn c09_cmr_replay() {
                     }
                 }
                 if let Some(u) = build::<H>(&ctx, &Shape::Unit) {
+                    // every placement of the hidden expression under the binary combinators: left, right, both
                     for (name, got, shape) in [
-                        ("comp", H::comp(&hidden, &u), Shape::Comp(bx(), Box::new(Shape::Unit))),
-                        ("pair", H::pair(&u, &hidden), Shape::Pair(Box::new(Shape::Unit), bx())),
+                        ("comp(hidden, visible)", H::comp(&hidden, &u), Shape::Comp(bx(), Box::new(Shape::Unit))),
+                        ("comp(visible, hidden)", H::comp(&u, &hidden), Shape::Comp(Box::new(Shape::Unit), bx())),
+                        ("comp(hidden, hidden)", H::comp(&hidden, &hidden), Shape::Comp(bx(), bx())),
+                        ("pair(visible, hidden)", H::pair(&u, &hidden), Shape::Pair(Box::new(Shape::Unit), bx())),
+                        ("pair(hidden, visible)", H::pair(&hidden, &u), Shape::Pair(bx(), Box::new(Shape::Unit))),
+                        ("pair(hidden, hidden)", H::pair(&hidden, &hidden), Shape::Pair(bx(), bx())),
+                        ("case(visible, hidden)", H::case(&u, &hidden), Shape::Case(Box::new(Shape::Unit), bx())),
+                        ("case(hidden, hidden)", H::case(&hidden, &hidden), Shape::Case(bx(), bx())),
                     ] {
                         if let Ok(g) = got {
                             if g.cmr().as_ref() != &reference(&shape)[..] {
